@@ -28,6 +28,12 @@
                                "stack", and the flag it returns is "stack occurs".
   * `features_from_str_err`  — what the two error results mean.
   * `split_comma_spec`       — `split(',')`: no piece contains a comma, joining them gives the text back.
+  * `flag_irrelevant_cli`    — the last sentence of the property at the command line: for a source
+                               without the four mnemonics whose (flag-off) run never fetches an
+                               opcode-0xD word, `lace check|compile|run` with `-f stack` is the same
+                               process as without the option: exit status, stdout, image written.
+  * `flag_off_cli_rejects`   — and a source with one of them is refused by all three commands
+                               without the option: status 1, nothing written, stderr names the feature.
 -/
 import Lace.Props.C18Asm
 import Lace.Props.C02
@@ -35,6 +41,7 @@ import Lace.Props.C03
 import Lace.Proofs.AsmFlagTok
 import Lace.Proofs.RunFlag
 import Lace.Proofs.FeaturesSpec
+import Lace.Proofs.CliFlagLemmas
 namespace Lace.C18
 open Lace Lace.Asm
 
@@ -195,5 +202,72 @@ example : fromStr "stack".toList = .ok true ∧ fromStr [] = .ok false ∧
     fromStr "Stack".toList = .error (.unknown "Stack".toList) ∧
     fromStr "stack, stack".toList = .error (.unknown " stack".toList) :=
   ⟨rfl, rfl, rfl, rfl, rfl, rfl, rfl, rfl⟩
+
+/-! ### The three commands -/
+open Lace.Cli in
+/-- **The flag changes neither the image nor the behaviour** of a program that uses none of the
+four mnemonics and never executes opcode 0xD — for the `lace` process as a whole: `check`,
+`compile` and `run --minimal` with `-f stack` give the same exit status, the same stdout and the
+same destination bytes as without the option. -/
+theorem flag_irrelevant_cli (cmd : FlagCmd) (fuel : Nat) (name dest src : List Char) (inp : List Nat)
+    (toks : List Token) (hon : preprocess (some true) src = .ok toks)
+    (hns : ∀ t ∈ toks, t.kind.isStack = false)
+    (hrun : ∀ img m, (assemble false [] src).1 = .ok img →
+      Run.fromRaw (img.orig.getD 0x3000#16 :: img.words) = .ok m →
+      ∀ x ∈ Run.fetchedWords false true fuel m (runWorld name inp), (x.extractLsb' 12 4).toNat ≠ 13) :
+    laceFlag cmd (.given Features.stackWord) fuel name dest src inp =
+      laceFlag cmd .absent fuel name dest src inp := by
+  unfold laceFlag
+  rw [featuresOf_stack, featuresOf_absent]
+  simp only []
+  rw [flag_irrelevant_text [] src toks hon hns]
+  cases cmd with
+  | check => rfl
+  | compile => rfl
+  | run =>
+    simp only []
+    cases hA : (assemble false [] src).1 with
+    | panic s => rfl
+    | diag k sp => rfl
+    | ok img =>
+      simp only []
+      cases hL : Run.fromRaw (img.orig.getD 0x3000#16 :: img.words) with
+      | exit c => unfold runAssembled; simp only [hL]
+      | panic s => unfold runAssembled; simp only [hL]
+      | ok m =>
+        have hno := hrun img m hA hL
+        obtain ⟨h1, _, _⟩ := flag_irrelevant_run true fuel m (runWorld name inp) hno
+        rw [runAssembled_eq true true fuel name img.orig img.words inp m hL,
+          runAssembled_eq false true fuel name img.orig img.words inp m hL, h1]
+        simp only [Bool.not_true, Bool.false_and, Bool.and_false, Bool.not_false, lastIsOpD_false hno]
+
+open Lace.Cli in
+/-- Without the option, a source in which the lexer finds one of the four mnemonics is refused
+by `check`, `compile` and `run` alike: exit status 1, only the first status line on stdout, no
+image written, and the text on stderr names the feature. -/
+theorem flag_off_cli_rejects (cmd : FlagCmd) (fuel : Nat) (name dest src : List Char) (inp : List Nat)
+    (toks : List Token) (hon : preprocess (some true) src = .ok toks)
+    (hst : ∃ t ∈ toks, t.kind.isStack = true) :
+    ∃ out, laceFlag cmd .absent fuel name dest src inp =
+      .finished { status := 1, out := out, image := none, named := true } := by
+  obtain ⟨sp, h⟩ := flag_off_rejects [] src toks hon hst
+  unfold laceFlag
+  rw [featuresOf_absent]
+  simp only [h]
+  cases cmd <;> exact ⟨_, rfl⟩
+
+/-! Non-vacuity: the hypotheses of `flag_irrelevant_cli` hold for `ret ; pushy` (which does not
+assemble: the run hypothesis is void) — and token streams without the mnemonics exist. -/
+open Lace.Cli in
+example : laceFlag .check (.given Features.stackWord) 100 "f.asm".toList "o".toList "br pushy".toList [] =
+    laceFlag .check .absent 100 "f.asm".toList "o".toList "br pushy".toList [] := by
+  have hd : (assemble false [] "br pushy".toList).1 = .diag .labelNotFound none := by decide
+  refine flag_irrelevant_cli _ _ _ _ _ _
+    (match preprocess (some true) "br pushy".toList with | .ok t => t | _ => []) rfl (by decide) ?_
+  intro img m hA
+  rw [hd] at hA
+  cases hA
+example : ∃ toks, preprocess (some true) "halt".toList = .ok toks ∧ ∀ t ∈ toks, t.kind.isStack = false :=
+  ⟨_, rfl, by decide⟩
 
 end Lace.C18
